@@ -358,6 +358,38 @@ fn eval_det(t: &mut Toks) -> R<String> {
             let b = t.geom()?;
             twice(&|h| h.str(&format!("{:?}", a.relate(&b))))
         }
+        "measures" => {
+            // scalar measures of a geometry with many members: any parallel reduction inside them would make the
+            // low-order bits depend on the worker pool (compared across pool sizes by the cross-process stream)
+            use geo::algorithm::area::Area;
+            use geo::algorithm::centroid::Centroid;
+            use geo::algorithm::chamberlain_duquette_area::ChamberlainDuquetteArea;
+            use geo::algorithm::geodesic_area::GeodesicArea;
+            use geo::algorithm::bounding_rect::BoundingRect;
+            use geo::algorithm::line_measures::{Euclidean, Geodesic, Haversine, Length, Rhumb};
+            let g = t.geom()?;
+            twice(&|h| {
+                h.f(g.signed_area());
+                h.f(g.unsigned_area());
+                h.f(g.geodesic_area_signed());
+                h.f(g.geodesic_area_unsigned());
+                h.f(g.geodesic_perimeter());
+                let (p, a) = g.geodesic_perimeter_area_signed();
+                h.f(p);
+                h.f(a);
+                h.f(g.chamberlain_duquette_signed_area());
+                h.f(g.chamberlain_duquette_unsigned_area());
+                if let Some(c) = g.centroid() { h.c(c.0); }
+                if let Some(r) = g.bounding_rect() { h.c(r.min()); h.c(r.max()); }
+                h.poly(&g.convex_hull());
+                if let Geometry::MultiLineString(m) = &g {
+                    h.f(Euclidean.length(m));
+                    h.f(Haversine.length(m));
+                    h.f(Geodesic.length(m));
+                    h.f(Rhumb.length(m));
+                }
+            })
+        }
         "prelseq" => {
             // ONE PreparedGeometry answers a sequence of relate calls (as left and as right operand), then the same
             // sequence backwards; every answer must equal a fresh plain relate of the same pair: earlier calls on
@@ -808,7 +840,9 @@ fn gen_case(rng: &mut Rng, index: u64) -> String {
                     Geometry::MultiPoint(MultiPoint(many_points(rng, n, 50).into_iter().map(Point).collect()))
                 }
             };
-            format!("C20.det pariter {}", proto::geom(&g))
+            // lon/lat-sized coordinates so that the geodesic measures are meaningful
+            let kind = if rng.chance(1, 2) { "pariter" } else { "measures" };
+            format!("C20.det {} {}", kind, proto::geom(&g))
         }
         _ if rng.chance(1, 2) => {
             // a prepared polygon asked about geometries inside it, overlapping it, around it and apart from it
